@@ -22,7 +22,7 @@ use std::sync::mpsc::{channel, Receiver, Sender};
 // ---------------------------------------------------------------------------
 
 /// Failing table calls with distinct descriptions.
-pub const FAIL_KINDS: usize = 12;
+pub const FAIL_KINDS: usize = 13;
 
 /// Objects that failing calls were made on stay alive as long as their worker thread: a description
 /// must not depend on the packet that produced it, but a library that (wrongly) ties the two together
@@ -85,6 +85,11 @@ fn fail_call(t: &FnTable, pp: &mut ParsedPacket, kind: usize, err: &mut *const C
                 let big = keep.big.get_or_insert_with(|| DNSSector::new(big_packet().clone()).unwrap().parse().unwrap());
                 let text = b"www.example.com. 1 IN A 1.2.3.4\0";
                 (t.add_to_answer)(big as *mut ParsedPacket, err as *mut *const CErr, text.as_ptr() as *const libc::c_char)
+            }
+            12 => {
+                // record text that is not UTF-8: refused by the table entry itself, before the native call
+                let text = b"ex\xffmple.com. 60 IN A 192.0.2.1\0";
+                (t.add_to_answer)(pp as *mut ParsedPacket, err as *mut *const CErr, text.as_ptr() as *const libc::c_char)
             }
             _ => {
                 // failures inside an iteration callback: second delete of a record ("Void record"),
@@ -178,6 +183,7 @@ fn native_descriptions() -> Vec<String> {
         let mut it = own.into_iter_answer().expect("golden packet 0 has an answer");
         v.push(it.set_raw_name(&POINTER_RAW_NAME).unwrap_err().to_string());
     }
+    v.push(dnssector::DSError::ParseError.to_string());
     assert_eq!(v.len(), FAIL_KINDS);
     if std::env::var_os("VERIF_DEBUG_TRACES").is_some() {
         eprintln!("C16 descriptions: {:#?}", v);
@@ -352,7 +358,7 @@ fn c16_case(data: &[u8], st: &mut Stats) -> PResult {
             } else {
                 let k = src.below(FAIL_KINDS);
                 // packet-level failures (add_to_answer, add_to_question, rename) sometimes on a packet shared by all threads
-                if matches!(k, 2 | 3 | 6 | 7) && src.chance(128) {
+                if matches!(k, 2 | 3 | 6 | 7 | 12) && src.chance(128) {
                     FAIL_KINDS + 1 + k + FAIL_KINDS * src.below(2)
                 } else {
                     k
@@ -378,7 +384,7 @@ fn c16_case(data: &[u8], st: &mut Stats) -> PResult {
         st.class("read-after-foreign-failure");
         st.nontrivial(&sched);
         if st.wants_sample(&format!("threads:{}", n)) {
-            st.sample(&format!("threads:{}", n), json!({"schedule (thread, step: 0..11 = failure kind on the thread's own packet, 12 = read, 13.. = failure kind on a shared packet)": sched}));
+            st.sample(&format!("threads:{}", n), json!({"schedule (thread, step: 0..12 = failure kind on the thread's own packet, 13 = read, 14.. = failure kind on a shared packet)": sched}));
         }
     }
     Ok(())
@@ -512,7 +518,7 @@ pub fn check_c16(ctx: &Ctx, known: &KnownFindings) -> Report {
     let prop = (200usize, c16_case);
     let r = drive(&prop, ctx.cases(20_000, 400_000), ctx, 16, &ks);
     rep.absorb(r);
-    rep.rule = "schedules = sequences of (thread, fail_k | read) executed exactly: each schedule thread is an OS thread that performs one table call per command received over a channel and replies before the next command is issued (the harness owns the interleaving). fail_k are twelve failing table calls (raw_name_from_str x4, add_to_answer with unparsable text / at the 8192-byte limit, add_to_question, rename_with_raw_names with an empty / a root target, and inside an iter_answer callback a second delete and set_raw_name with a malformed / a compressed name) covering payload-free error kinds (Parse error, Packet too large, Void record), payload-carrying ones and the two descriptions longer than 64 bytes; read = error_description(err) with that thread's err pointer. Oracle: model of per-thread last failure (descriptions taken from the native API); every read returns it. Exhaustive for 2 threads x 2 failure kinds x read up to the stated length, for three pairs of kinds (short payload-carrying, the two longest descriptions, two payload-free kinds); random for 3-4 threads, length <= 40, packet-level failures on the thread's own packet or on one of two packets handed between the threads; one deterministic schedule with 70 live threads; one with 300 short-lived failing threads while an early thread keeps re-reading its description; schedules with exactly 254..257 and 65534..65537 failures on another thread between a thread's read and its next failure. Non-trivial: a read whose thread's last failure precedes a failure on another thread.".into();
+    rep.rule = "schedules = sequences of (thread, fail_k | read) executed exactly: each schedule thread is an OS thread that performs one table call per command received over a channel and replies before the next command is issued (the harness owns the interleaving). fail_k are thirteen failing table calls (raw_name_from_str x4, add_to_answer with unparsable text / text that is not UTF-8 / at the 8192-byte limit, add_to_question, rename_with_raw_names with an empty / a root target, and inside an iter_answer callback a second delete and set_raw_name with a malformed / a compressed name) covering payload-free error kinds (Parse error, Packet too large, Void record), payload-carrying ones and the two descriptions longer than 64 bytes; read = error_description(err) with that thread's err pointer. Oracle: model of per-thread last failure (descriptions taken from the native API); every read returns it. Exhaustive for 2 threads x 2 failure kinds x read up to the stated length, for three pairs of kinds (short payload-carrying, the two longest descriptions, two payload-free kinds); random for 3-4 threads, length <= 40, packet-level failures on the thread's own packet or on one of two packets handed between the threads; one deterministic schedule with 70 live threads; one with 300 short-lived failing threads while an early thread keeps re-reading its description; schedules with exactly 254..257 and 65534..65537 failures on another thread between a thread's read and its next failure. Non-trivial: a read whose thread's last failure precedes a failure on another thread.".into();
     rep.assumptions = vec!["interleavings are explored at the granularity of whole table calls (the property's own granularity); interleavings inside throw_err are not".into(), "a read before the thread's first failure is not judged (err pointer still NULL)".into()];
     rep.require(&["exhaustive-schedules", "threads:3", "threads:4", "read-after-foreign-failure", "many-live-threads:70", "short-lived-threads:300", "foreign-failures-between:2^8,2^16"]);
     rep
@@ -529,6 +535,8 @@ pub enum Call {
     Compress(Vec<u8>),
     Rename(Vec<u8>, Vec<u8>, Vec<u8>, bool),
     Synth(String),
+    /// parse the packet, insert_rr_from_string into section 1..3: the packet afterwards, or the error
+    InsertText(Vec<u8>, u8, String),
 }
 
 impl Call {
@@ -539,6 +547,7 @@ impl Call {
             Call::Compress(_) => 2,
             Call::Rename(..) => 3,
             Call::Synth(_) => 4,
+            Call::InsertText(..) => 5,
         }
     }
 }
@@ -560,6 +569,16 @@ pub fn eval_call(c: &Call) -> Vec<u8> {
                 Renamer::rename_with_raw_names(&mut p, t, s, *sfx).map_err(|e| e.to_string())
             }
             Call::Synth(t) => dgen::RR::from_string(t).map(|rr| rr.packet).map_err(|e| e.to_string()),
+            Call::InsertText(b, sec, t) => {
+                let mut p = DNSSector::new(b.clone()).and_then(|d| d.parse()).map_err(|e| e.to_string())?;
+                let section = match sec {
+                    1 => dnssector::constants::Section::Answer,
+                    2 => dnssector::constants::Section::NameServers,
+                    _ => dnssector::constants::Section::Additional,
+                };
+                p.insert_rr_from_string(section, t).map_err(|e| e.to_string())?;
+                Ok(p.packet.clone().unwrap_or_default())
+            }
         }
     });
     match r {
@@ -574,7 +593,14 @@ pub fn eval_call(c: &Call) -> Vec<u8> {
 
 fn gen_call(src: &mut Src) -> Call {
     let o = GenOpts { big: false, many: false, ..GenOpts::default() };
-    match src.below(5) {
+    match src.below(6) {
+        5 => {
+            let o2 = GenOpts { response: Some(true), max_small: 3, ..o.clone() };
+            let (_, e) = gens::gen_packet(src, &o2);
+            let tc = rrtext::gen_valid(src, &TextOpts { max_wire: 120, ..TextOpts::default() });
+            let text = if src.chance(100) { rrtext::damage_text(src, &tc).0 } else { tc.text };
+            Call::InsertText(e.bytes, src.range(1, 3) as u8, text)
+        }
         0 => {
             let (b, _) = crate::props::parse_props::gen_input(src);
             Call::Parse(b)
@@ -672,6 +698,15 @@ fn vary_call(src: &mut Src, c: &Call) -> Call {
             2 => Call::Rename(b.clone(), s.clone(), t.clone(), *sfx),
             _ => Call::Rename(vary_bytes(src, b), t.clone(), s.clone(), *sfx),
         },
+        Call::InsertText(b, sec, t) => match src.below(3) {
+            // the same text into another packet / section, or a near-variant of the text into the same packet
+            0 => Call::InsertText(vary_bytes(src, b), *sec, t.clone()),
+            1 => Call::InsertText(b.clone(), 1 + (*sec % 3), t.clone()),
+            _ => match vary_call(src, &Call::Synth(t.clone())) {
+                Call::Synth(t2) => Call::InsertText(b.clone(), *sec, t2),
+                _ => c.clone(),
+            },
+        },
         Call::Synth(t) => {
             let flip = |c: char| if c.is_ascii_lowercase() { c.to_ascii_uppercase() } else { c.to_ascii_lowercase() };
             match src.below(4) {
@@ -740,7 +775,7 @@ fn c17_case(data: &[u8], st: &mut Stats) -> PResult {
         hist.extend([a, b, a]);
         st.class(&format!("variant-directly-after-original:kind{}", pool[a].kind()));
     }
-    let mut prev_kind_input: Vec<Option<usize>> = vec![None; 5];
+    let mut prev_kind_input: Vec<Option<usize>> = vec![None; 6];
     for (i, &ix) in hist.iter().enumerate() {
         let got = eval_call(&pool[ix]);
         ensure!(
@@ -799,7 +834,7 @@ pub fn replay_c17(data: &[u8]) -> PResult {
 pub fn check_c17(ctx: &Ctx, known: &KnownFindings) -> Report {
     let mut rep = Report::new("C17");
     let ks = known_sigs(known, "C17");
-    rep.rule = "pools of 3..8 calls over {DNSSector::parse, Compress::uncompress, Compress::compress, Renamer::rename_with_raw_names, RR::from_string} on generated inputs (valid, damaged, raw; about a third of the pool entries are near-variants of an earlier entry: ASCII case of one or all letters, one byte or bit, the suffix flag, target and source swapped, one digit of a record text - and the history runs original, variant, original back to back; rename arguments are sometimes names the renamer must refuse; every call is also made twice in a row). Baseline: each call alone on a freshly spawned thread. Then a random history of 4..24 calls on one thread, then 2..6 threads running random plans concurrently behind a barrier: every evaluation must be byte-identical to the baseline (Ok bytes and object fields, or the same error text). ParsedPacket::empty()/gen::query are compared with the id masked and the id is checked to vary. Non-trivial: an evaluation preceded on its thread by a call of the same function on a different input; distinct = hash of the (call, previous call) pair.".into();
+    rep.rule = "pools of 3..8 calls over {DNSSector::parse, Compress::uncompress, Compress::compress, Renamer::rename_with_raw_names, RR::from_string, parse + insert_rr_from_string} on generated inputs (valid, damaged, raw; about a third of the pool entries are near-variants of an earlier entry: ASCII case of one or all letters, one byte or bit, the suffix flag, target and source swapped, one digit of a record text - and the history runs original, variant, original back to back; rename arguments are sometimes names the renamer must refuse; every call is also made twice in a row). Baseline: each call alone on a freshly spawned thread. Then a random history of 4..24 calls on one thread, then 2..6 threads running random plans concurrently behind a barrier: every evaluation must be byte-identical to the baseline (Ok bytes and object fields, or the same error text). ParsedPacket::empty()/gen::query are compared with the id masked and the id is checked to vary. Non-trivial: an evaluation preceded on its thread by a call of the same function on a different input; distinct = hash of the (call, previous call) pair.".into();
     rep.assumptions = vec!["the concurrent half is a stress differential: the library shares no memory between threads, so there is no schedule for the harness to control".into()];
     // the one permitted randomness
     let r = catch(|| -> PResult {
@@ -828,9 +863,9 @@ pub fn check_c17(ctx: &Ctx, known: &KnownFindings) -> Report {
     let prop = (6000usize, c17_case);
     let r = drive(&prop, ctx.cases(6_000, 150_000), ctx, 17, &ks);
     rep.absorb(r);
-    let mut req: Vec<String> = (0..5).map(|k| format!("same-function-different-input:kind{}", k)).collect();
-    req.extend((0..5).map(|k| format!("variant-directly-after-original:kind{}", k)));
-    req.extend((0..5).map(|k| format!("same-call-twice-in-a-row:kind{}", k)));
+    let mut req: Vec<String> = (0..6).map(|k| format!("same-function-different-input:kind{}", k)).collect();
+    req.extend((0..6).map(|k| format!("variant-directly-after-original:kind{}", k)));
+    req.extend((0..6).map(|k| format!("same-call-twice-in-a-row:kind{}", k)));
     req.push("threads:2".into());
     req.push("threads:6".into());
     rep.required.extend(req);
